@@ -376,7 +376,9 @@ CONFIG = {
                       "transcribed over the translated formulas (Model/ScalarMultLit.lean), is proved to return a valid point standing for x•g in the curve "
                       "group for every scalar and valid point (Proofs/EdRepr, ScalarMultRefine.scalarMult_correct), and composed with the translated SetBytes: "
                       "for any 32 digest bytes h and valid key A standing for g the result stands for (h mod L)•g (Proofs/ScalarGlue.blind_mult_translated). "
-                      "Not modelled: ModInverse (math/big).",
+                      "Unblinding inverts blinding on multiples of the base point whenever b·b' ≡ 1 (mod L), because L•B = 0 in the curve group — proved by running the "
+                      "proved ScalarMult on the bytes of L in the kernel (Proofs/BaseOrder.order_B, unblind_blind_on_curve). "
+                      "Not modelled: ModInverse (math/big), i.e. that the b' the code computes satisfies b·b' ≡ 1 is observed (scalarInverses stream), not proved.",
         "trusted_base": COMMON_TB + ["Mathlib", "PatVerif/Exec/Ed25519"],
         "assumptions": ["A lies in the prime-order subgroup for unblind_blind",
                         "Model/GoInt.lean reads Go's int64 operators correctly where the generated side conditions hold"],
